@@ -636,6 +636,11 @@ def _array_valued(t, depth=0):
         return False
     if a.kind == 'sym':
         return SYMKIND.get(a.args[0]) == 'array'
+    if a.kind == 'call' and a.args[0] in ('concatenate', 'zeros', 'ones', 'empty', 'full', 'array', 'astype', 'reshape', 'linspace',
+                                          'arange', 'fft', 'fftshift', 'around', 'clip', 'abs', 'real', 'imag', 'frombuffer'):
+        return True
+    if a.kind == 'seq':
+        return True
     if a.kind == 'sub':
         ia = a.args[1].single_atom()
         sliced = ia is not None and (ia.kind == 'slice' or (ia.kind == 'tuple' and any(
